@@ -3,12 +3,12 @@ import PynetVerif.Model.Framing
 namespace PynetVerif.Driver
 open PynetVerif.Framing
 
-def rrOfSExp : SExp → Option RR
+private def rrOfSExp : SExp → Option RR
   | .nat k => some (.got k)
   | .sym "timeout" => some .timeout
   | _ => none
 
-def frameToSExp : Frame → SExp
+private def frameToSExp : Frame → SExp
   | .pdu b => .list [.sym "pdu", .bytes b]
   | .unrecognised h => .list [.sym "unrec", .bytes h]
   | .closed => .sym "closed"
